@@ -140,7 +140,7 @@ class Model:
         elif o == 'add_field':
             self.fields.append([op.get('x', 0.0), op['y'], op.get('vx', 0.0),
                                 op.get('vy', 0.0)])
-        elif o == 'set_polarization':
+        elif o in ('set_polarization', 'set_telecentric'):
             pass
         else:
             raise NotApplicable(o)
